@@ -81,6 +81,17 @@ class SimLoop(asyncio.BaseEventLoop):
     def time(self) -> float:
         return self.clock.now
 
+    def call_at(self, when, callback, *args, context=None):
+        # timers due at the same virtual instant would fire in insertion
+        # order; a seeded sub-microsecond jitter makes their order one more
+        # scheduler decision (buggify kind 'timer_ties')
+        from . import env
+        world = env.CURRENT
+        if world is not None and 'timer_ties' in world.armed and \
+                world.sched_rng is not None:
+            when += world.sched_rng.random() * 1e-6
+        return super().call_at(when, callback, *args, context=context)
+
     def _process_events(self, event_list) -> None:
         pass
 
